@@ -374,7 +374,8 @@ Proof.
 Qed.
 
 Lemma try_from_reread tbl t (hasaf : bool) ri :
-  valid_tx tbl t = true -> (hasaf = false -> aff_is_default (x_af t) = true) ->
+  valid_tx tbl t = true ->
+  (hasaf = false -> is_xsplit (x_act t) = false -> aff_is_default (x_af t) = true) ->
   tx_try_from tbl (reread hasaf (to_csvtx t) ri)
   = if hasaf then Ok (retx t (x_af t) ri, tbl)
     else if is_xsplit (x_act t) then (let '(g, tbl') := af_global tbl in Ok (retx t g ri, tbl'))
@@ -384,8 +385,8 @@ Proof.
   unfold valid_tx in Hv. rewrite !andb_true_iff in Hv. destruct Hv as [[[[Hs Htd] Hsd] Ha] Haf].
   assert (Hsec : is_nil (x_sec t) = false).
   { unfold valid_sec in Hs. apply andb_prop in Hs. destruct Hs as [Hs _]. apply negb_true_iff in Hs. exact Hs. }
-  assert (Hafd : hasaf = false -> af_default tbl = (x_af t, tbl)).
-  { intros E. apply af_default_hit; [exact Haf|apply Hdef; exact E]. }
+  assert (Hafd : hasaf = false -> is_xsplit (x_act t) = false -> af_default tbl = (x_af t, tbl)).
+  { intros E E'. apply af_default_hit; [exact Haf|apply Hdef; assumption]. }
   unfold tx_try_from, reread, to_csvtx, retx.
   destruct (x_act t) as [sh aps com cr ccr|sh aps com cr ccr sfl|aps cr|sh aps|r];
     cbn [valid_act] in Ha; rewrite ?andb_true_iff in Ha;
@@ -399,7 +400,7 @@ Proof.
     rewrite <- (dec_same_gez _ _ (rp_dec_same 2 _ V2 ltac:(lia))), P2.
     rewrite <- (dec_same_gez _ _ (rp_dec_same 2 _ V3 ltac:(lia))), P3.
     cbn [negb bind]. rewrite memo_reread, Hsec.
-    destruct hasaf; [reflexivity|]. rewrite (Hafd eq_refl). reflexivity.
+    destruct hasaf; [reflexivity|]. rewrite (Hafd eq_refl eq_refl). reflexivity.
   - destruct Ha as [[[[[[[[V1 P1] V2] P2] V3] P3] Vc] Vcc] Vs].
     unfold common_attrs, req.
     cbn [v_act v_sh v_aps v_com v_cur v_fx v_ccur v_cfx v_memo v_af v_sfl v_ratio v_sec v_td v_sd v_ri bind].
@@ -408,19 +409,19 @@ Proof.
     rewrite <- (dec_same_gez _ _ (rp_dec_same 2 _ V2 ltac:(lia))), P2.
     rewrite <- (dec_same_gez _ _ (rp_dec_same 2 _ V3 ltac:(lia))), P3.
     cbn [negb bind]. rewrite memo_reread, Hsec.
-    destruct hasaf; [reflexivity|]. rewrite (Hafd eq_refl). reflexivity.
+    destruct hasaf; [reflexivity|]. rewrite (Hafd eq_refl eq_refl). reflexivity.
   - destruct Ha as [[V1 P1] Vc]. unfold req.
     cbn [v_act v_sh v_aps v_com v_cur v_fx v_ccur v_cfx v_memo v_af v_sfl v_ratio v_sec v_td v_sd v_ri bind is_some].
     rewrite <- (dec_same_gez _ _ (rp_dec_same 2 _ V1 ltac:(lia))), P1. cbn [negb].
     rewrite (ver_car _ Vc). cbn [bind or_default]. rewrite memo_reread, Hsec.
-    destruct hasaf; [reflexivity|]. rewrite (Hafd eq_refl). reflexivity.
+    destruct hasaf; [reflexivity|]. rewrite (Hafd eq_refl eq_refl). reflexivity.
   - destruct Ha as [[[V1 P1] V2] P2]. unfold req.
     cbn [v_act v_sh v_aps v_com v_cur v_fx v_ccur v_cfx v_memo v_af v_sfl v_ratio v_sec v_td v_sd v_ri bind is_some
          valid_exchange_rate].
     rewrite <- (dec_same_pos _ _ (rp_dec_same 0 _ V1 ltac:(lia))), P1.
     rewrite <- (dec_same_pos _ _ (rp_dec_same 2 _ V2 ltac:(lia))), P2.
     cbn [negb bind]. rewrite memo_reread, Hsec.
-    destruct hasaf; [reflexivity|]. rewrite (Hafd eq_refl). reflexivity.
+    destruct hasaf; [reflexivity|]. rewrite (Hafd eq_refl eq_refl). reflexivity.
   - unfold req.
     cbn [v_act v_sh v_aps v_com v_cur v_fx v_ccur v_cfx v_memo v_af v_sfl v_ratio v_sec v_td v_sd v_ri bind].
     rewrite memo_reread, Hsec.
@@ -500,10 +501,26 @@ Proof.
 Qed.
 
 (* ---------------------------------------------------------------- Tx::try_from on all records *)
+(* a row that names no affiliate: the default one, or a split for all affiliates *)
+Definition unnamed_b (t : ctx) : bool :=
+  aff_is_default (x_af t) || (is_xsplit (x_act t) && aff_is_global (x_af t)).
+
+Lemma global_id_data : a_id (from_strep_data s_global) = s_global.
+Proof. reflexivity. Qed.
+Lemma af_global_hit tbl a :
+  valid_aff tbl a = true -> aff_is_global a = true -> af_global tbl = (a, tbl).
+Proof.
+  intros Hv Hg. destruct (valid_aff_intern tbl a Hv) as [_ [_ Hf]].
+  unfold aff_is_global in Hg. apply beqb_eq in Hg.
+  unfold af_global, intern. rewrite global_id_data, <- Hg, Hf. reflexivity.
+Qed.
+
 (* what each transaction comes back as *)
 Definition back (hasaf : bool) (t t' : ctx) (ri : N) : Prop :=
   exists af, t' = retx t af ri
-             /\ (af = x_af t \/ (hasaf = false /\ is_xsplit (x_act t) = true /\ aff_is_global af = true)).
+    /\ ((af = x_af t /\ (hasaf = false -> is_xsplit (x_act t) = true -> aff_is_global (x_af t) = true))
+        \/ (hasaf = false /\ is_xsplit (x_act t) = true /\ aff_is_default (x_af t) = true
+            /\ aff_is_global af = true)).
 
 Fixpoint backs (hasaf : bool) (txs txs' : list ctx) (ri : N) : Prop :=
   match txs, txs' with
@@ -512,64 +529,53 @@ Fixpoint backs (hasaf : bool) (txs txs' : list ctx) (ri : N) : Prop :=
   | _, _ => False
   end.
 
+Definition grows (tbl tbl' : aftable) : Prop :=
+  forall id b, tbl_find id tbl = Some b -> tbl_find id tbl' = Some b.
+
 Lemma try_from_all (hasaf : bool) txs : forall tbl ri,
   Forall (fun t => valid_tx tbl t = true) txs ->
-  (hasaf = false -> Forall (fun t => aff_is_default (x_af t) = true) txs) ->
+  (hasaf = false -> Forall (fun t => unnamed_b t = true) txs) ->
   exists txs' tbl',
     txs_try_from tbl (reread_all hasaf (map to_csvtx txs) ri) = Ok (txs', tbl')
-    /\ backs hasaf txs txs' ri.
+    /\ backs hasaf txs txs' ri /\ grows tbl tbl'.
 Proof.
   induction txs as [|t txs IH]; intros tbl ri HV HD.
-  - exists [], tbl. split; [reflexivity|exact I].
-  - inversion HV as [|? ? Hv HV']; subst.
-    assert (Hd : hasaf = false -> aff_is_default (x_af t) = true).
-    { intros E. specialize (HD E). inversion HD; assumption. }
-    assert (HD' : hasaf = false -> Forall (fun t => aff_is_default (x_af t) = true) txs).
-    { intros E. specialize (HD E). inversion HD; assumption. }
+  - exists [], tbl. split; [reflexivity|]. split; [exact I|]. intros id b H. exact H.
+  - pose proof (Forall_inv HV) as Hv. pose proof (Forall_inv_tail HV) as HV'.
+    assert (Hu : hasaf = false -> unnamed_b t = true) by (intros E; exact (Forall_inv (HD E))).
+    assert (HD' : hasaf = false -> Forall (fun t => unnamed_b t = true) txs)
+      by (intros E; exact (Forall_inv_tail (HD E))).
+    assert (Hd : hasaf = false -> is_xsplit (x_act t) = false -> aff_is_default (x_af t) = true).
+    { intros E Es. specialize (Hu E). unfold unnamed_b in Hu. rewrite Es in Hu. cbn [andb] in Hu.
+      rewrite orb_false_r in Hu. exact Hu. }
+    assert (Hva : valid_aff tbl (x_af t) = true).
+    { unfold valid_tx in Hv. rewrite !andb_true_iff in Hv. apply Hv. }
     cbn [map reread_all txs_try_from]. rewrite (try_from_reread tbl t hasaf ri Hv Hd).
     destruct hasaf.
-    + cbn [bind]. destruct (IH tbl (ri + 1) HV' HD') as [txs' [tbl' [E B]]]. rewrite E. cbn [bind].
-      exists (retx t (x_af t) ri :: txs'), tbl'. split; [reflexivity|]. split; [|exact B].
-      exists (x_af t). auto.
+    + cbn [bind]. destruct (IH tbl (ri + 1) HV' HD') as [txs' [tbl' [E [B G]]]]. rewrite E. cbn [bind].
+      exists (retx t (x_af t) ri :: txs'), tbl'. split; [reflexivity|]. split; [|exact G]. split; [|exact B].
+      exists (x_af t). split; [reflexivity|]. left. split; [reflexivity|discriminate].
     + destruct (is_xsplit (x_act t)) eqn:Es.
-      * destruct (af_global tbl) as [g tbl1] eqn:Eg. cbn [bind].
-        assert (Hg : forall id b, tbl_find id tbl = Some b -> tbl_find id tbl1 = Some b)
-          by (apply (intern_grows tbl s_global g tbl1); exact Eg).
-        assert (HV1 : Forall (fun t => valid_tx tbl1 t = true) txs).
-        { apply Forall_forall. intros x Hx. apply (valid_tx_grows tbl tbl1); [exact Hg|].
-          apply (proj1 (Forall_forall _ _) HV'). exact Hx. }
-        destruct (IH tbl1 (ri + 1) HV1 HD') as [txs' [tbl' [E B]]]. rewrite E. cbn [bind].
-        exists (retx t g ri :: txs'), tbl'. split; [reflexivity|]. split; [|exact B].
-        exists g. split; [reflexivity|]. right. repeat split; auto.
-        pose proof (global_is_global tbl) as G. rewrite Eg in G. exact G.
-      * cbn [bind]. destruct (IH tbl (ri + 1) HV' HD') as [txs' [tbl' [E B]]]. rewrite E. cbn [bind].
-        exists (retx t (x_af t) ri :: txs'), tbl'. split; [reflexivity|]. split; [|exact B].
-        exists (x_af t). auto.
-Qed.
-
-Fixpoint retx_all (txs : list ctx) (ri : N) : list ctx :=
-  match txs with
-  | [] => []
-  | t :: r => retx t (x_af t) ri :: retx_all r (ri + 1)
-  end.
-
-(* when no global affiliate is introduced the result is explicit and the table unchanged *)
-Lemma try_from_all_plain (hasaf : bool) txs : forall tbl ri,
-  Forall (fun t => valid_tx tbl t = true) txs ->
-  (hasaf = false -> Forall (fun t => aff_is_default (x_af t) = true /\ is_xsplit (x_act t) = false) txs) ->
-  txs_try_from tbl (reread_all hasaf (map to_csvtx txs) ri) = Ok (retx_all txs ri, tbl).
-Proof.
-  induction txs as [|t txs IH]; intros tbl ri HV HD; [reflexivity|].
-  inversion HV as [|? ? Hv HV']; subst.
-  assert (Hd : hasaf = false -> aff_is_default (x_af t) = true /\ is_xsplit (x_act t) = false).
-  { intros E. specialize (HD E). inversion HD; assumption. }
-  assert (HD' : hasaf = false -> Forall (fun t => aff_is_default (x_af t) = true /\ is_xsplit (x_act t) = false) txs).
-  { intros E. specialize (HD E). inversion HD; assumption. }
-  cbn [map reread_all txs_try_from retx_all].
-  rewrite (try_from_reread tbl t hasaf ri Hv (fun E => proj1 (Hd E))).
-  destruct hasaf.
-  - cbn [bind]. rewrite (IH tbl (ri + 1) HV' HD'). reflexivity.
-  - rewrite (proj2 (Hd eq_refl)). cbn [bind]. rewrite (IH tbl (ri + 1) HV' HD'). reflexivity.
+      * destruct (aff_is_global (x_af t)) eqn:Eglob.
+        -- (* already a split for all affiliates: interned, the table does not change *)
+           rewrite (af_global_hit tbl (x_af t) Hva Eglob). cbn [bind].
+           destruct (IH tbl (ri + 1) HV' HD') as [txs' [tbl' [E [B G]]]]. rewrite E. cbn [bind].
+           exists (retx t (x_af t) ri :: txs'), tbl'. split; [reflexivity|]. split; [|exact G]. split; [|exact B].
+           exists (x_af t). split; [reflexivity|]. left. split; [reflexivity|]. intros _ _. exact Eglob.
+        -- destruct (af_global tbl) as [g tbl1] eqn:Eg. cbn [bind].
+           assert (Hg : grows tbl tbl1) by (unfold grows; apply (intern_grows tbl s_global g tbl1); exact Eg).
+           assert (HV1 : Forall (fun t => valid_tx tbl1 t = true) txs).
+           { apply Forall_forall. intros x Hx. apply (valid_tx_grows tbl tbl1); [exact Hg|].
+             apply (proj1 (Forall_forall _ _) HV'). exact Hx. }
+           destruct (IH tbl1 (ri + 1) HV1 HD') as [txs' [tbl' [E [B G]]]]. rewrite E. cbn [bind].
+           exists (retx t g ri :: txs'), tbl'. split; [reflexivity|]. split.
+           ++ split; [|exact B]. exists g. split; [reflexivity|]. right. repeat split; auto.
+              ** specialize (Hu eq_refl). unfold unnamed_b in Hu. rewrite Eglob, andb_false_r, orb_false_r in Hu. exact Hu.
+              ** pose proof (global_is_global tbl) as Gl. rewrite Eg in Gl. exact Gl.
+           ++ intros id b H. apply G, Hg. exact H.
+      * cbn [bind]. destruct (IH tbl (ri + 1) HV' HD') as [txs' [tbl' [E [B G]]]]. rewrite E. cbn [bind].
+        exists (retx t (x_af t) ri :: txs'), tbl'. split; [reflexivity|]. split; [|exact G]. split; [|exact B].
+        exists (x_af t). split; [reflexivity|]. left. split; [reflexivity|]. intros _ Hx. congruence.
 Qed.
 
 (* ---------------------------------------------------------------- "the same transaction" *)
@@ -611,33 +617,28 @@ Lemma date_eqb_refl d : date_eqb d d = true.
 Proof. unfold date_eqb. rewrite !N.eqb_refl. reflexivity. Qed.
 
 Lemma back_same tbl (hasaf glob_ok : bool) t t' ri :
-  valid_tx tbl t = true -> back hasaf t t' ri ->
-  (hasaf = false -> glob_ok = true /\ aff_is_default (x_af t) = true) ->
+  valid_tx tbl t = true -> back hasaf t t' ri -> (hasaf = false -> glob_ok = true) ->
   tx_same glob_ok t t' = true /\ x_ri t' = ri.
 Proof.
   intros Hv [af [-> Haf]] Hg. unfold valid_tx in Hv. rewrite !andb_true_iff in Hv.
   destruct Hv as [[[[Hs Htd] Hsd] Ha] Hva].
   split; [|reflexivity]. unfold tx_same, retx. cbn [x_sec x_td x_sd x_act x_memo x_af].
   rewrite !beqb_refl, !date_eqb_refl, (act_eqv_rp _ Ha). cbn [andb].
-  destruct Haf as [->|[Hh [Hsp Hglob]]].
+  destruct Haf as [[-> _]|[Hh [Hsp [Hd Hglob]]]].
   - rewrite affdata_eqb_refl. reflexivity.
-  - destruct (Hg Hh) as [-> Hd]. rewrite Hsp, Hd, Hglob. apply orb_true_r.
+  - rewrite (Hg Hh), Hsp, Hd, Hglob. apply orb_true_r.
 Qed.
 
 Lemma backs_same tbl (hasaf glob_ok : bool) txs : forall txs' ri,
   Forall (fun t => valid_tx tbl t = true) txs -> backs hasaf txs txs' ri ->
-  (hasaf = false -> glob_ok = true /\ Forall (fun t => aff_is_default (x_af t) = true) txs) ->
+  (hasaf = false -> glob_ok = true) ->
   forall2b (tx_same glob_ok) txs txs' = true /\ ri_from ri txs' = true.
 Proof.
   induction txs as [|t txs IH]; intros txs' ri HV HB Hg; destruct txs' as [|t' txs']; cbn in HB; try contradiction.
   - split; reflexivity.
   - destruct HB as [B1 B2]. pose proof (Forall_inv HV) as Hv. pose proof (Forall_inv_tail HV) as HV'.
-    assert (Hg1 : hasaf = false -> glob_ok = true /\ aff_is_default (x_af t) = true).
-    { intros E. destruct (Hg E) as [G F]. split; [exact G|exact (Forall_inv F)]. }
-    assert (Hg' : hasaf = false -> glob_ok = true /\ Forall (fun t => aff_is_default (x_af t) = true) txs).
-    { intros E. destruct (Hg E) as [G F]. split; [exact G|exact (Forall_inv_tail F)]. }
-    destruct (back_same tbl hasaf glob_ok t t' ri Hv B1 Hg1) as [S R].
-    destruct (IH txs' (ri + 1) HV' B2 Hg') as [S' R'].
+    destruct (back_same tbl hasaf glob_ok t t' ri Hv B1 Hg) as [S R].
+    destruct (IH txs' (ri + 1) HV' B2 Hg) as [S' R'].
     cbn [forall2b ri_from]. rewrite S, S', R, R', N.eqb_refl. split; reflexivity.
 Qed.
 
@@ -654,19 +655,6 @@ Proof.
   - destruct (beqb (a_id a) s_default_id) eqn:Ed.
     + apply beqb_eq in Ed. rewrite Ed in Hf. rewrite Hf in E. discriminate.
     + unfold affdata_eqb. rewrite default_id_data, Ed. reflexivity.
-Qed.
-
-Lemma af_in_use tbl txs :
-  Forall (fun t => valid_tx tbl t = true) txs ->
-  col_in_use (fst (af_default tbl)) (map to_csvtx txs) KAf = negb (no_named_affiliate txs).
-Proof.
-  intros HV. cbn [col_in_use]. unfold no_named_affiliate.
-  induction txs as [|t txs IH]; [reflexivity|].
-  pose proof (Forall_inv HV) as Hv. pose proof (Forall_inv_tail HV) as HV'.
-  cbn [map existsb forallb]. rewrite (IH HV'), negb_andb. f_equal.
-  assert (Ea : v_af (to_csvtx t) = Some (x_af t)) by (unfold to_csvtx; destruct (x_act t); reflexivity).
-  rewrite Ea. f_equal. apply dflt_eq.
-  unfold valid_tx in Hv. rewrite !andb_true_iff in Hv. apply Hv.
 Qed.
 
 Lemma v_af_some t : v_af (to_csvtx t) = Some (x_af t).
@@ -701,6 +689,44 @@ Proof.
   - apply Huse; [cbn; auto 20|]. apply (in_use_member dflt vs _ KSfl Hin H).
   - apply Huse; [cbn; auto 20|]. apply (in_use_member dflt vs _ KRatio Hin H).
   - rewrite v_af_some. reflexivity.
+Qed.
+
+Lemma v_split_some t : v_is_split (to_csvtx t) = is_xsplit (x_act t).
+Proof. unfold to_csvtx, v_is_split; destruct (x_act t); reflexivity. Qed.
+
+(* the three tests of the column rule, on the CsvTx of a valid transaction *)
+Lemma af_tests tbl t :
+  valid_tx tbl t = true ->
+  let dflt := fst (af_default tbl) in
+  af_global_split (to_csvtx t) = is_xsplit (x_act t) && aff_is_global (x_af t)
+  /\ af_named dflt (to_csvtx t) = negb (unnamed_b t)
+  /\ af_default_split dflt (to_csvtx t)
+     = negb (is_xsplit (x_act t) && aff_is_global (x_af t)) && aff_is_default (x_af t) && is_xsplit (x_act t).
+Proof.
+  intros Hv dflt. unfold valid_tx in Hv. rewrite !andb_true_iff in Hv. destruct Hv as [_ Hva].
+  unfold af_global_split, af_named, af_default_split, unnamed_b.
+  rewrite v_af_some, v_split_some. unfold dflt. rewrite (dflt_eq tbl (x_af t) Hva).
+  repeat split; try reflexivity.
+  destruct (is_xsplit (x_act t) && aff_is_global (x_af t)) eqn:E; cbn [negb andb].
+  - rewrite orb_true_r. reflexivity.
+  - rewrite orb_false_r. reflexivity.
+Qed.
+
+(* without the column every row is unnamed *)
+Lemma no_column_unnamed tbl txs :
+  Forall (fun t => valid_tx tbl t = true) txs ->
+  col_in_use (fst (af_default tbl)) (map to_csvtx txs) KAf = false ->
+  no_named_affiliate txs = true.
+Proof.
+  intros HV H. cbn [col_in_use] in H. apply orb_false_iff in H. destruct H as [H _].
+  unfold no_named_affiliate. apply forallb_forall. intros t Ht. fold (unnamed_b t).
+  assert (Hn : af_named (fst (af_default tbl)) (to_csvtx t) = false).
+  { destruct (af_named (fst (af_default tbl)) (to_csvtx t)) eqn:E; [|reflexivity].
+    assert (X : existsb (af_named (fst (af_default tbl))) (map to_csvtx txs) = true).
+    { apply existsb_exists. exists (to_csvtx t). split; [apply in_map; exact Ht|exact E]. }
+    congruence. }
+  destruct (af_tests tbl t (proj1 (Forall_forall _ _) HV t Ht)) as [_ [E _]]. rewrite E in Hn.
+  apply negb_false_iff in Hn. exact Hn.
 Qed.
 
 (* ---------------------------------------------------------------- C11: the round trip on cells *)
@@ -751,15 +777,39 @@ Proof.
   apply parse_rows_written; auto. apply rows_ok. exact HV.
 Qed.
 
-Lemma no_column_all_default tbl dflt txs :
-  Forall (fun t => valid_tx tbl t = true) txs -> fst (af_default tbl) = dflt ->
-  inhdr (table_header dflt (map to_csvtx txs)) KAf = negb (no_named_affiliate txs).
+Lemma hasaf_in_use dflt vs : inhdr (table_header dflt vs) KAf = col_in_use dflt vs KAf.
 Proof.
-  intros HV Ed. destruct (header_props dflt (map to_csvtx txs)) as [_ [_ [_ [Hin Huse]]]].
-  rewrite <- (af_in_use tbl txs HV), Ed.
-  destruct (col_in_use dflt (map to_csvtx txs) KAf) eqn:E.
+  destruct (header_props dflt vs) as [_ [_ [_ [Hin Huse]]]].
+  destruct (col_in_use dflt vs KAf) eqn:E.
   - apply Huse; [cbn; auto 20|exact E].
   - destruct (inhdr _ KAf) eqn:E'; [|reflexivity]. rewrite (Hin KAf E' eq_refl) in E. discriminate.
+Qed.
+
+(* reading the written table: the result, with everything known about it *)
+Lemma read_back tbl txs :
+  Forall (fun t => valid_tx tbl t = true) txs ->
+  exists dflt tblw txs' tbl2,
+    write_table tbl txs
+    = ((map col_name (table_header dflt (map to_csvtx txs)),
+        map (fun v => map (cell v) (table_header dflt (map to_csvtx txs))) (map to_csvtx txs)), tblw)
+    /\ fst (af_default tbl) = dflt /\ fst (af_default tblw) = dflt
+    /\ Forall (fun t => valid_tx tblw t = true) txs
+    /\ read_table tblw (map col_name (table_header dflt (map to_csvtx txs)))
+                  (map (fun v => map (cell v) (table_header dflt (map to_csvtx txs))) (map to_csvtx txs))
+       = Ok (txs', tbl2)
+    /\ backs (col_in_use dflt (map to_csvtx txs) KAf) txs txs' 0 /\ grows tblw tbl2
+    /\ (col_in_use dflt (map to_csvtx txs) KAf = false -> no_named_affiliate txs = true).
+Proof.
+  intros HV.
+  destruct (written_table_facts tbl txs HV) as [dflt [tblw [hdr [Ew [Eh [Ed [Edw HVw]]]]]]]. subst hdr.
+  assert (Hun : col_in_use dflt (map to_csvtx txs) KAf = false -> no_named_affiliate txs = true).
+  { intros E. apply (no_column_unnamed tbl txs HV). rewrite Ed. exact E. }
+  assert (Hdef : col_in_use dflt (map to_csvtx txs) KAf = false -> Forall (fun t => unnamed_b t = true) txs).
+  { intros E. specialize (Hun E). unfold no_named_affiliate in Hun. apply forallb_Forall in Hun. exact Hun. }
+  destruct (try_from_all (col_in_use dflt (map to_csvtx txs) KAf) txs tblw 0 HVw Hdef) as [txs' [tbl2 [E [B G]]]].
+  exists dflt, tblw, txs', tbl2. repeat split; auto.
+  unfold read_table. rewrite (read_written_rows tblw dflt txs HVw). cbn [bind].
+  rewrite hasaf_in_use. exact E.
 Qed.
 
 Theorem table_roundtrip tbl txs :
@@ -770,41 +820,24 @@ Theorem table_roundtrip tbl txs :
     /\ forall2b (tx_same (no_named_affiliate txs)) txs txs' = true /\ ri_from 0 txs' = true.
 Proof.
   intros HV. apply forallb_Forall in HV.
-  destruct (written_table_facts tbl txs HV) as [dflt [tblw [hdr [Ew [Eh [Ed [Edw HVw]]]]]]].
-  rewrite Ew. cbn [fst snd]. unfold read_table. subst hdr.
-  rewrite (read_written_rows tblw dflt txs HVw). cbn [bind].
-  set (hasaf := inhdr (table_header dflt (map to_csvtx txs)) KAf).
-  assert (Hh : hasaf = negb (no_named_affiliate txs)) by (apply (no_column_all_default tbl); assumption).
-  assert (Hdef : hasaf = false -> Forall (fun t => aff_is_default (x_af t) = true) txs).
-  { intros E. rewrite E in Hh. symmetry in Hh. apply negb_false_iff in Hh.
-    unfold no_named_affiliate in Hh. apply forallb_Forall in Hh. exact Hh. }
-  destruct (try_from_all hasaf txs tblw 0 HVw Hdef) as [txs' [tbl2 [E B]]].
-  exists txs', tbl2. split; [exact E|].
-  apply (backs_same tblw hasaf (no_named_affiliate txs) txs txs' 0 HVw B).
-  intros E0. split; [|apply Hdef; exact E0]. rewrite E0 in Hh. symmetry in Hh. apply negb_false_iff in Hh. exact Hh.
+  destruct (read_back tbl txs HV) as [dflt [tblw [txs' [tbl2 [Ew [Ed [Edw [HVw [Er [B [G Hun]]]]]]]]]]].
+  rewrite Ew. cbn [fst snd]. exists txs', tbl2. split; [exact Er|].
+  apply (backs_same tblw _ (no_named_affiliate txs) txs txs' 0 HVw B). exact Hun.
 Qed.
 
 (* ---------------------------------------------------------------- the second generation *)
 Definition csv_like (v v' : csvtx) : Prop :=
-  (forall k, cell v' k = cell v k)
+  (forall k, k <> KAf -> cell v' k = cell v k)
   /\ is_some (v_fx v') = is_some (v_fx v) /\ is_some (v_ccur v') = is_some (v_ccur v)
   /\ is_some (v_cfx v') = is_some (v_cfx v) /\ is_some (v_sfl v') = is_some (v_sfl v)
-  /\ is_some (v_ratio v') = is_some (v_ratio v) /\ v_af v' = v_af v.
+  /\ is_some (v_ratio v') = is_some (v_ratio v).
 
-Lemma like_in_use dflt vs vs' k : Forall2 csv_like vs vs' -> col_in_use dflt vs' k = col_in_use dflt vs k.
+Lemma like_in_use dflt vs vs' k :
+  k <> KAf -> Forall2 csv_like vs vs' -> col_in_use dflt vs' k = col_in_use dflt vs k.
 Proof.
-  induction 1 as [|v v' vs vs' [_ [H1 [H2 [H3 [H4 [H5 H6]]]]]] _ IH]; [reflexivity|].
-  destruct k; cbn [col_in_use existsb] in *; rewrite ?IH, ?H1, ?H2, ?H3, ?H4, ?H5, ?H6; reflexivity.
-Qed.
-Lemma like_table dflt vs vs' :
-  Forall2 csv_like vs vs' ->
-  table_header dflt vs' = table_header dflt vs
-  /\ forall hdr, map (fun v => map (cell v) hdr) vs' = map (fun v => map (cell v) hdr) vs.
-Proof.
-  intros H. split.
-  - unfold table_header. apply filter_ext. intros c. rewrite (like_in_use dflt vs vs' c H). reflexivity.
-  - intros hdr. induction H as [|v v' vs vs' [Hc _] _ IH]; [reflexivity|]. cbn [map]. rewrite IH. f_equal.
-    apply map_ext. intros k. apply Hc.
+  intros Hk. induction 1 as [|v v' vs vs' [_ [H1 [H2 [H3 [H4 H5]]]]] _ IH]; [reflexivity|].
+  destruct k; cbn [col_in_use existsb] in *; rewrite ?IH, ?H1, ?H2, ?H3, ?H4, ?H5; try reflexivity.
+  contradiction.
 Qed.
 
 Lemma rp_car_cur c : valid_car c = true -> c_cur (rp_car c) = c_cur c.
@@ -821,12 +854,11 @@ Qed.
 Lemma tsmp_rp k d : valid_dec d = true -> (k <= 28)%nat -> tsmp k (rp_dec k d) = tsmp k d.
 Proof. intros Hv Hk. apply rp_dec_spec; assumption. Qed.
 
-Lemma like_retx tbl t ri :
-  valid_tx tbl t = true -> trim (x_memo t) = x_memo t ->
-  csv_like (to_csvtx t) (to_csvtx (retx t (x_af t) ri)).
+Lemma like_retx tbl t af ri :
+  valid_tx tbl t = true -> csv_like (to_csvtx t) (to_csvtx (retx t af ri)).
 Proof.
-  intros Hv Hm. unfold valid_tx in Hv. rewrite !andb_true_iff in Hv. destruct Hv as [[[[Hs Htd] Hsd] Ha] Haf].
-  unfold csv_like, retx, to_csvtx. cbn [x_sec x_td x_sd x_act x_memo x_af x_ri]. rewrite Hm.
+  intros Hv. unfold valid_tx in Hv. rewrite !andb_true_iff in Hv. destruct Hv as [[[[Hs Htd] Hsd] Ha] Haf].
+  unfold csv_like, retx, to_csvtx. cbn [x_sec x_td x_sd x_act x_memo x_af x_ri].
   destruct (x_act t) as [sh aps com cr ccr|sh aps com cr ccr sfl|aps cr|sh aps|r];
     cbn [valid_act] in Ha; rewrite ?andb_true_iff in Ha; cbn [rp_act].
   - destruct Ha as [[[[[[[V1 P1] V2] P2] V3] P3] Vc] Vcc].
@@ -837,8 +869,8 @@ Proof.
     { destruct ccr as [c|]; [|reflexivity]. cbn. apply rp_car_rate. }
     repeat split; cbn [v_fx v_ccur v_cfx v_sfl v_ratio v_af];
       rewrite ?Ec, ?Er, ?rp_car_rate; try reflexivity.
-    + intros k. destruct k; cbn [cell oshow v_sec v_td v_sd v_act v_sh v_aps v_com v_cur v_fx v_ccur v_cfx v_sfl v_ratio v_af v_memo];
-        rewrite ?Ec, ?Er, ?rp_car_rate, ?rp_car_cur by assumption; try reflexivity;
+    + intros k Hk. destruct k; try (exfalso; apply Hk; reflexivity); cbn [cell oshow v_sec v_td v_sd v_act v_sh v_aps v_com v_cur v_fx v_ccur v_cfx v_sfl v_ratio v_af v_memo];
+        rewrite ?Ec, ?Er, ?rp_car_rate, ?rp_car_cur by assumption; try reflexivity; try (rewrite trim_idem; reflexivity);
         try (rewrite tsmp_rp by (assumption || lia); reflexivity).
       * destruct (rate_opt cr) as [x|] eqn:E; [|reflexivity]. cbn [option_map oshow].
         apply tsmp_rp; [|lia]. apply (rate_opt_valid cr Vc x E).
@@ -855,8 +887,8 @@ Proof.
     { destruct ccr as [c|]; [|reflexivity]. cbn. apply rp_car_rate. }
     repeat split; cbn [v_fx v_ccur v_cfx v_sfl v_ratio v_af];
       rewrite ?Ec, ?Er, ?rp_car_rate; try reflexivity.
-    + intros k. destruct k; cbn [cell oshow v_sec v_td v_sd v_act v_sh v_aps v_com v_cur v_fx v_ccur v_cfx v_sfl v_ratio v_af v_memo];
-        rewrite ?Ec, ?Er, ?rp_car_rate, ?rp_car_cur by assumption; try reflexivity;
+    + intros k Hk. destruct k; try (exfalso; apply Hk; reflexivity); cbn [cell oshow v_sec v_td v_sd v_act v_sh v_aps v_com v_cur v_fx v_ccur v_cfx v_sfl v_ratio v_af v_memo];
+        rewrite ?Ec, ?Er, ?rp_car_rate, ?rp_car_cur by assumption; try reflexivity; try (rewrite trim_idem; reflexivity);
         try (rewrite tsmp_rp by (assumption || lia); reflexivity).
       * destruct (rate_opt cr) as [x|] eqn:E; [|reflexivity]. cbn [option_map oshow].
         apply tsmp_rp; [|lia]. apply (rate_opt_valid cr Vc x E).
@@ -869,60 +901,161 @@ Proof.
     + destruct sfl; reflexivity.
   - destruct Ha as [[V1 P1] Vc].
     repeat split; cbn [v_fx v_ccur v_cfx v_sfl v_ratio v_af]; rewrite ?rp_car_rate; try reflexivity.
-    + intros k. destruct k; cbn [cell oshow v_sec v_td v_sd v_act v_sh v_aps v_com v_cur v_fx v_ccur v_cfx v_sfl v_ratio v_af v_memo];
-        rewrite ?rp_car_rate, ?rp_car_cur by assumption; try reflexivity;
+    + intros k Hk. destruct k; try (exfalso; apply Hk; reflexivity); cbn [cell oshow v_sec v_td v_sd v_act v_sh v_aps v_com v_cur v_fx v_ccur v_cfx v_sfl v_ratio v_af v_memo];
+        rewrite ?rp_car_rate, ?rp_car_cur by assumption; try reflexivity; try (rewrite trim_idem; reflexivity);
         try (rewrite tsmp_rp by (assumption || lia); reflexivity).
       destruct (rate_opt cr) as [x|] eqn:E; [|reflexivity]. cbn [option_map oshow].
       apply tsmp_rp; [|lia]. apply (rate_opt_valid cr Vc x E).
     + destruct (rate_opt cr); reflexivity.
   - destruct Ha as [[[V1 P1] V2] P2].
     repeat split; try reflexivity.
-    intros k. destruct k; cbn [cell oshow v_sec v_td v_sd v_act v_sh v_aps v_com v_cur v_fx v_ccur v_cfx v_sfl v_ratio v_af v_memo];
-      try reflexivity; rewrite tsmp_rp by (assumption || lia); reflexivity.
+    intros k Hk. destruct k; try (exfalso; apply Hk; reflexivity); cbn [cell oshow v_sec v_td v_sd v_act v_sh v_aps v_com v_cur v_fx v_ccur v_cfx v_sfl v_ratio v_af v_memo];
+      try reflexivity; try (rewrite trim_idem; reflexivity); rewrite tsmp_rp by (assumption || lia); reflexivity.
   - repeat split; try reflexivity.
-    intros k. destruct k; cbn [cell oshow v_sec v_td v_sd v_act v_sh v_aps v_com v_cur v_fx v_ccur v_cfx v_sfl v_ratio v_af v_memo];
-      try reflexivity. apply ratio_roundtrip. exact Ha.
+    intros k Hk. destruct k; try (exfalso; apply Hk; reflexivity); cbn [cell oshow v_sec v_td v_sd v_act v_sh v_aps v_com v_cur v_fx v_ccur v_cfx v_sfl v_ratio v_af v_memo];
+      try reflexivity; try (rewrite trim_idem; reflexivity). apply ratio_roundtrip. exact Ha.
 Qed.
 
-Lemma like_retx_all tbl txs : forall ri,
-  Forall (fun t => valid_tx tbl t = true) txs -> K_memo_untrimmed txs = false ->
-  Forall2 csv_like (map to_csvtx txs) (map to_csvtx (retx_all txs ri)).
+
+Lemma backs_like tbl (hasaf : bool) txs : forall txs' ri,
+  Forall (fun t => valid_tx tbl t = true) txs -> backs hasaf txs txs' ri ->
+  Forall2 csv_like (map to_csvtx txs) (map to_csvtx txs').
 Proof.
-  induction txs as [|t txs IH]; intros ri HV HK; [constructor|].
-  cbn [K_memo_untrimmed existsb] in HK. apply orb_false_iff in HK. destruct HK as [Hm HK].
-  apply negb_false_iff, beqb_eq in Hm.
-  cbn [map retx_all]. constructor.
-  - apply (like_retx tbl); [exact (Forall_inv HV)|exact Hm].
-  - apply IH; [exact (Forall_inv_tail HV)|exact HK].
+  induction txs as [|t txs IH]; intros txs' ri HV HB; destruct txs' as [|t' txs']; cbn in HB; try contradiction.
+  - constructor.
+  - destruct HB as [[af [-> _]] B2]. cbn [map]. constructor.
+    + apply (like_retx tbl). exact (Forall_inv HV).
+    + apply (IH txs' (ri + 1)); [exact (Forall_inv_tail HV)|exact B2].
 Qed.
 
+(* with the column, every affiliate comes back as it was *)
+Lemma backs_af_true txs : forall txs' ri,
+  backs true txs txs' ri -> map x_af txs' = map x_af txs /\ map (fun t => is_xsplit (x_act t)) txs' = map (fun t => is_xsplit (x_act t)) txs.
+Proof.
+  induction txs as [|t txs IH]; intros txs' ri HB; destruct txs' as [|t' txs']; cbn in HB; try contradiction.
+  - split; reflexivity.
+  - destruct HB as [[af [-> Haf]] B2]. destruct (IH txs' (ri + 1) B2) as [E1 E2]. cbn [map]. rewrite E1, E2.
+    destruct Haf as [[-> _]|[Hf _]]; [|discriminate]. cbn [retx x_af x_act].
+    split; [reflexivity|]. f_equal. destruct (x_act t); reflexivity.
+Qed.
+
+Lemma is_xsplit_rp a : is_xsplit (rp_act a) = is_xsplit a.
+Proof. destruct a; reflexivity. Qed.
+
+(* without the column, no re-read row needs it *)
+Lemma backs_af_false dflt txs : forall txs' ri,
+  backs false txs txs' ri ->
+  existsb (af_named dflt) (map to_csvtx txs) = false ->
+  existsb (af_named dflt) (map to_csvtx txs') = false
+  /\ existsb (af_default_split dflt) (map to_csvtx txs') = false.
+Proof.
+  induction txs as [|t txs IH]; intros txs' ri HB Hn; destruct txs' as [|t' txs']; cbn in HB; try contradiction.
+  - split; reflexivity.
+  - destruct HB as [[af [-> Haf]] B2]. cbn [map existsb] in Hn. apply orb_false_iff in Hn. destruct Hn as [Hn1 Hn2].
+    destruct (IH txs' (ri + 1) B2 Hn2) as [E1 E2]. cbn [map existsb]. rewrite E1, E2, !orb_false_r.
+    unfold af_named, af_default_split in *. rewrite v_af_some, v_split_some in *.
+    cbn [retx x_af x_act]. rewrite is_xsplit_rp.
+    destruct Haf as [[-> Hg]|[_ [Hs [_ Hglob]]]].
+    + destruct (is_xsplit (x_act t)) eqn:Es.
+      * rewrite (Hg eq_refl eq_refl). split; reflexivity.
+      * cbn [andb negb] in *. rewrite Hn1. split; [reflexivity|apply andb_false_r].
+    + rewrite Hs, Hglob. split; reflexivity.
+Qed.
+
+Lemma existsb_map_eq {A B} (f g : A -> bool) (h h' : B -> A) l l' :
+  map (fun x => f (h x)) l = map (fun x => g (h' x)) l' -> existsb f (map h l) = existsb g (map h' l').
+Proof.
+  revert l'. induction l as [|x l IH]; intros l' E; destruct l' as [|y l']; try discriminate; [reflexivity|].
+  cbn [map] in E. inversion E as [[E1 E2]]. cbn [map existsb]. rewrite E1, (IH l' E2). reflexivity.
+Qed.
+
+Lemma map_pair_eq {A B C D} (f : A -> B) (g : A -> C) (Q : B -> C -> D) : forall l l',
+  map f l' = map f l -> map g l' = map g l ->
+  map (fun x => Q (f x) (g x)) l' = map (fun x => Q (f x) (g x)) l.
+Proof.
+  induction l as [|x l IH]; intros l' E1 E2; destruct l' as [|y l']; try discriminate; [reflexivity|].
+  cbn [map] in *. inversion E1 as [[Ef El]]. inversion E2 as [[Eg El2]]. rewrite Ef, Eg, (IH l' El El2). reflexivity.
+Qed.
+
+(* the affiliate column is decided the same way the second time *)
+Lemma second_af_in_use tbl dflt txs txs' :
+  Forall (fun t => valid_tx tbl t = true) txs ->
+  backs (col_in_use dflt (map to_csvtx txs) KAf) txs txs' 0 ->
+  col_in_use dflt (map to_csvtx txs') KAf = col_in_use dflt (map to_csvtx txs) KAf.
+Proof.
+  intros HV HB. destruct (col_in_use dflt (map to_csvtx txs) KAf) eqn:E.
+  - destruct (backs_af_true txs txs' 0 HB) as [Ea Es].
+    assert (Ev : forall (P : csvtx -> bool) (Q : affdata -> bool -> bool),
+               (forall t, P (to_csvtx t) = Q (x_af t) (is_xsplit (x_act t))) ->
+               existsb P (map to_csvtx txs') = existsb P (map to_csvtx txs)).
+    { intros P Q HP. apply existsb_map_eq.
+      rewrite (map_ext _ _ HP txs'), (map_ext _ _ HP txs).
+      apply map_pair_eq; assumption. }
+    cbn [col_in_use] in *. rewrite <- E.
+    rewrite (Ev (af_named dflt) (fun a s => negb (s && aff_is_global a) && negb (affdata_eqb a dflt))),
+            (Ev af_global_split (fun a s => s && aff_is_global a)),
+            (Ev (af_default_split dflt) (fun a s => negb (s && aff_is_global a) && affdata_eqb a dflt && s)); try reflexivity;
+      intros t; unfold af_named, af_global_split, af_default_split; rewrite v_af_some, v_split_some; reflexivity.
+  - cbn [col_in_use] in *. apply orb_false_iff in E. destruct E as [E1 _].
+    destruct (backs_af_false dflt txs txs' 0 HB E1) as [H1 H2]. rewrite H1, H2, andb_false_r. reflexivity.
+Qed.
+
+Lemma rows_like hdr vs vs' :
+  Forall2 csv_like vs vs' -> (In KAf hdr -> map v_af vs' = map v_af vs) ->
+  map (fun v => map (cell v) hdr) vs' = map (fun v => map (cell v) hdr) vs.
+Proof.
+  intros H. induction H as [|v v' vs vs' [Hc _] _ IH]; intros Ha; [reflexivity|].
+  cbn [map]. rewrite IH.
+  - f_equal. apply map_ext_in. intros k Hk. destruct (col_eqb_spec k KAf) as [->|Hne].
+    + specialize (Ha Hk). cbn [map] in Ha. injection Ha as E _. cbn [cell]. rewrite E. reflexivity.
+    + apply Hc. exact Hne.
+  - intros Hk. specialize (Ha Hk). cbn [map] in Ha. injection Ha as _ E. exact E.
+Qed.
+
+(* Writing the re-read list again yields the same table, for EVERY valid list *)
 Theorem table_idempotent tbl txs :
-  forallb (valid_tx tbl) txs = true -> K_memo_untrimmed txs = false -> K_default_split txs = false ->
+  forallb (valid_tx tbl) txs = true ->
   exists txs' tbl2,
     read_table (snd (write_table tbl txs)) (fst (fst (write_table tbl txs))) (snd (fst (write_table tbl txs)))
     = Ok (txs', tbl2)
     /\ fst (write_table tbl2 txs') = fst (write_table tbl txs).
 Proof.
-  intros HV Km Ks. apply forallb_Forall in HV.
-  destruct (written_table_facts tbl txs HV) as [dflt [tblw [hdr [Ew [Eh [Ed [Edw HVw]]]]]]].
-  rewrite Ew. cbn [fst snd]. unfold read_table. subst hdr.
-  rewrite (read_written_rows tblw dflt txs HVw). cbn [bind].
-  set (hasaf := inhdr (table_header dflt (map to_csvtx txs)) KAf).
-  assert (Hh : hasaf = negb (no_named_affiliate txs)) by (apply (no_column_all_default tbl); assumption).
-  assert (Hdef : hasaf = false ->
-                 Forall (fun t => aff_is_default (x_af t) = true /\ is_xsplit (x_act t) = false) txs).
-  { intros E. rewrite E in Hh. symmetry in Hh. apply negb_false_iff in Hh.
-    unfold K_default_split in Ks. rewrite Hh in Ks. cbn [andb] in Ks.
-    unfold no_named_affiliate in Hh. rewrite forallb_forall in Hh.
-    apply Forall_forall. intros t Ht. split; [apply Hh; exact Ht|].
-    destruct (is_xsplit (x_act t)) eqn:Es; [|reflexivity].
-    assert (existsb (fun t => is_xsplit (x_act t)) txs = true) by (apply existsb_exists; exists t; auto).
-    congruence. }
-  rewrite (try_from_all_plain hasaf txs tblw 0 HVw Hdef).
-  exists (retx_all txs 0), tblw. split; [reflexivity|].
-  unfold write_table, csv_table. destruct (af_default tblw) as [d2 t2] eqn:E2. cbn [fst] in Edw. subst d2.
-  cbn [fst]. destruct (like_table dflt _ _ (like_retx_all tblw txs 0 HVw Km)) as [Hhdr Hrows].
-  rewrite Hhdr, Hrows. reflexivity.
+  intros HV. apply forallb_Forall in HV.
+  destruct (read_back tbl txs HV) as [dflt [tblw [txs' [tbl2 [Ew [Ed [Edw [HVw [Er [B [G Hun]]]]]]]]]]].
+  rewrite Ew. cbn [fst snd]. exists txs', tbl2. split; [exact Er|].
+  (* the default affiliate is the same in the grown table *)
+  assert (Ed2 : txs <> [] -> fst (af_default tbl2) = dflt).
+  { intros Hne. unfold af_default, intern in *. rewrite default_id_data in *.
+    destruct (tbl_find s_default_id tblw) as [b|] eqn:Ef.
+    - rewrite (G _ _ Ef). exact Edw.
+    - (* tblw interns the default affiliate as soon as a row is written *)
+      exfalso. destruct txs as [|t0 txs0]; [contradiction|].
+      pose proof (Forall_inv HVw) as Hv0. unfold valid_tx in Hv0. rewrite !andb_true_iff in Hv0.
+      destruct Hv0 as [_ Hva]. clear -Ew Ef Ed.
+      unfold write_table, csv_table in Ew. destruct (af_default tbl) as [d0 t1] eqn:E0.
+      cbn [map existsb] in Ew. rewrite v_af_some in Ew. cbn [is_some orb] in Ew. inversion Ew; subst tblw.
+      unfold af_default, intern in E0. rewrite default_id_data in E0.
+      destruct (tbl_find s_default_id tbl) as [b|] eqn:Eb; inversion E0; subst.
+      + rewrite Eb in Ef. discriminate.
+      + rewrite (tbl_find_snoc _ _ _ Eb default_id_data) in Ef. discriminate. }
+  destruct txs as [|t0 txs0].
+  - destruct txs' as [|? ?]; [|cbn in B; contradiction].
+    unfold write_table, csv_table. destruct (af_default tbl2) as [d2 t2]. reflexivity.
+  - specialize (Ed2 ltac:(discriminate)). set (txs := t0 :: txs0) in *.
+    unfold write_table, csv_table. destruct (af_default tbl2) as [d2 t2] eqn:E2. cbn [fst] in Ed2. subst d2.
+    cbn [fst].
+    pose proof (backs_like tblw _ txs txs' 0 HVw B) as HL.
+    assert (Hhdr : table_header dflt (map to_csvtx txs') = table_header dflt (map to_csvtx txs)).
+    { unfold table_header. apply filter_ext. intros c. destruct (col_eqb_spec c KAf) as [->|Hne].
+      - rewrite (second_af_in_use tblw dflt txs txs' HVw B). reflexivity.
+      - rewrite (like_in_use dflt _ _ c Hne HL). reflexivity. }
+    rewrite Hhdr. f_equal. apply rows_like; [exact HL|].
+    intros Hin. apply inhdr_In in Hin. rewrite hasaf_in_use in Hin. rewrite Hin in B.
+    destruct (backs_af_true txs txs' 0 B) as [Ea _].
+    rewrite !map_map. 
+    transitivity (map (fun t => Some (x_af t)) txs'); [apply map_ext; intros; apply v_af_some|].
+    transitivity (map (fun t => Some (x_af t)) txs); [|apply map_ext; intros; symmetry; apply v_af_some].
+    rewrite <- (map_map x_af Some txs'), <- (map_map x_af Some txs), Ea. reflexivity.
 Qed.
 
 (* ---------------------------------------------------------------- C11 on bytes (csv layer as hypothesis) *)
@@ -955,13 +1088,13 @@ Section Bytes.
   Qed.
 
   Theorem idempotent_bytes tbl txs :
-    forallb (valid_tx tbl) txs = true -> K_memo_untrimmed txs = false -> K_default_split txs = false ->
+    forallb (valid_tx tbl) txs = true ->
     exists txs' tbl2,
       read cr (snd (write cw tbl txs)) (fst (write cw tbl txs)) = Ok (txs', tbl2)
       /\ fst (write cw tbl2 txs') = fst (write cw tbl txs).
   Proof.
-    intros HV Km Ks. rewrite read_write_bytes by (apply forallb_Forall; exact HV).
-    destruct (table_idempotent tbl txs HV Km Ks) as [txs' [tbl2 [E W]]].
+    intros HV. rewrite read_write_bytes by (apply forallb_Forall; exact HV).
+    destruct (table_idempotent tbl txs HV) as [txs' [tbl2 [E W]]].
     exists txs', tbl2. split; [exact E|]. unfold write.
     destruct (write_table tbl2 txs') as [[h2 r2] t2]. destruct (write_table tbl txs) as [[h1 r1] t1].
     cbn [fst] in *. inversion W; subst. reflexivity.
@@ -978,7 +1111,12 @@ Section Bytes.
   Qed.
 End Bytes.
 
-(* ---------------------------------------------------------------- the two classes are real *)
+
+(* ---------------------------------------------------------------- the two former classes *)
+(* Before the fixes cd7192e / 96161d9 these two lists were re-written to
+   different cells (a memo with surrounding white space; a split of the
+   default affiliate in a list naming no other affiliate).  They are instances
+   of table_idempotent now. *)
 Definition wit_tbl : aftable := [from_strep_data []].
 Definition wit_buy (memo : bytes) : ctx :=
   {| x_sec := [70; 79; 79]; x_td := {| dt_y := 2021; dt_m := 3; dt_d := 4 |};
@@ -991,26 +1129,20 @@ Definition wit_split : ctx :=
      x_act := XSplit {| r_post := mk_dec false 2 0; r_pre := mk_dec false 1 0; r_rio := false |};
      x_memo := []; x_af := from_strep_data []; x_ri := 7 |}.
 
-Definition second_differs (tbl : aftable) (txs : list ctx) : Prop :=
+Definition second_same (tbl : aftable) (txs : list ctx) : Prop :=
   match read_table (snd (write_table tbl txs)) (fst (fst (write_table tbl txs))) (snd (fst (write_table tbl txs))) with
-  | Ok (txs', tbl2) => fst (write_table tbl2 txs') <> fst (write_table tbl txs)
+  | Ok (txs', tbl2) => fst (write_table tbl2 txs') = fst (write_table tbl txs)
   | _ => False
   end.
 
-Lemma memo_witness :
-  forallb (valid_tx wit_tbl) [wit_buy [32; 120]] = true
-  /\ K_memo_untrimmed [wit_buy [32; 120]] = true /\ K_default_split [wit_buy [32; 120]] = false
-  /\ second_differs wit_tbl [wit_buy [32; 120]].
-Proof.
-  repeat split; try (vm_compute; reflexivity). unfold second_differs. vm_compute. intros H. discriminate H.
-Qed.
-Lemma split_witness :
-  forallb (valid_tx wit_tbl) [wit_split] = true
-  /\ K_memo_untrimmed [wit_split] = false /\ K_default_split [wit_split] = true
-  /\ second_differs wit_tbl [wit_split].
-Proof.
-  repeat split; try (vm_compute; reflexivity). unfold second_differs. vm_compute. intros H. discriminate H.
-Qed.
+Lemma former_witnesses_stable :
+  forallb (valid_tx wit_tbl) [wit_buy [32; 120]] = true /\ second_same wit_tbl [wit_buy [32; 120]]
+  /\ forallb (valid_tx wit_tbl) [wit_split] = true /\ second_same wit_tbl [wit_split]
+  /\ map (fun t => aff_is_global (x_af t))
+         (match read_table (snd (write_table wit_tbl [wit_split])) (fst (fst (write_table wit_tbl [wit_split])))
+                           (snd (fst (write_table wit_tbl [wit_split]))) with
+          | Ok (txs', _) => txs' | _ => [] end) = [true].
+Proof. unfold second_same. vm_compute. repeat split. Qed.
 
 (* ---------------------------------------------------------------- the csv-layer hypothesis is satisfiable *)
 (* a length-prefixed encoding of tables (NOT the csv crate: only a witness
